@@ -54,7 +54,7 @@ func recOfDump(d string) string {
 }
 
 func runMemRead(c *hx.Ctx, r *hx.Rng, n int) error {
-	dir := engx.ScratchDir("c02mem")
+	dir := engx.FastScratchDir("c02mem")
 	defer os.RemoveAll(dir)
 	sh, err := engine.VerifOpenShard(dir, 2)
 	if err != nil {
